@@ -341,6 +341,72 @@ theorem batchUpdateNodes_seq (s : St) (us : List (Nat × Option Nat × Nat)) :
   · rw [h2, h1, if_pos rfl, bunLoop_seq]
   · rw [h2, h1]; rfl
 
+
+/-! ### what the batch deletes / updates answer -/
+
+/-- the answers of the single operations run one after the other -/
+def seqRes (s : St) : List Op → List Res
+  | [] => []
+  | op :: ops => (apply s op).1 :: seqRes (apply s op).2 ops
+
+/-- `BatchDeleteResult` from the answers of the single deletes: the ids that answered `ok`, and
+    (input index, id, cause) of the others, both in input order -/
+def delOutcome : Nat → List Nat → List Res → List Nat × List (Nat × Nat × Cause)
+  | _, [], _ => ([], [])
+  | _, _, [] => ([], [])
+  | idx, x :: xs, r :: rs =>
+    match r with
+    | .ok => (x :: (delOutcome (idx + 1) xs rs).1, (delOutcome (idx + 1) xs rs).2)
+    | r => ((delOutcome (idx + 1) xs rs).1, (idx, x, causeOf r) :: (delOutcome (idx + 1) xs rs).2)
+
+theorem bdeLoop_res : ∀ (es : List Nat) (idx : Nat) (del : List Nat) (fl : List (Nat × Nat × Cause)) (s : St),
+    (run1 (bdeLoop es idx del fl) s).1 =
+      .batchDel (del.reverse ++ (delOutcome idx es (seqRes s (es.map .deleteEdge))).1)
+        (fl.reverse ++ (delOutcome idx es (seqRes s (es.map .deleteEdge))).2) := by
+  intro es
+  induction es with
+  | nil => intro idx del fl s; simp [bdeLoop, run1, delOutcome]
+  | cons e es ih =>
+    intro idx del fl s
+    simp only [bdeLoop, run1_bind, List.map_cons, seqRes]
+    have : run1 (deleteEdgeProg e) s = apply s (.deleteEdge e) := rfl
+    rw [this]
+    cases hres : (apply s (.deleteEdge e)).1 <;> simp only [delOutcome] <;> rw [ih] <;> simp
+
+theorem bdnLoop_res : ∀ (ns : List (Nat × List Nat)) (idx : Nat) (del : List Nat) (fl : List (Nat × Nat × Cause)) (s : St),
+    (run1 (bdnLoop ns idx del fl) s).1 =
+      .batchDel (del.reverse ++ (delOutcome idx (ns.map Prod.fst) (seqRes s (ns.map fun x => .deleteNode x.1 x.2))).1)
+        (fl.reverse ++ (delOutcome idx (ns.map Prod.fst) (seqRes s (ns.map fun x => .deleteNode x.1 x.2))).2) := by
+  intro ns
+  induction ns with
+  | nil => intro idx del fl s; simp [bdnLoop, run1, delOutcome]
+  | cons x ns ih =>
+    intro idx del fl s
+    obtain ⟨n, hint⟩ := x
+    simp only [bdnLoop, run1_bind, List.map_cons, seqRes]
+    have : run1 (deleteNodeProg n hint) s = apply s (.deleteNode n hint) := rfl
+    rw [this]
+    cases hres : (apply s (.deleteNode n hint)).1 <;> simp only [delOutcome] <;> rw [ih] <;> simp
+
+def countOk : List Res → Nat
+  | [] => 0
+  | .ok :: rs => countOk rs + 1
+  | _ :: rs => countOk rs
+
+theorem bunLoop_res : ∀ (us : List (Nat × Option Nat × Nat)) (cnt : Nat) (s : St),
+    (run1 (bunLoop us cnt) s).1 =
+      .count (cnt + countOk (seqRes s (us.map fun x => .updateNode x.1 x.2.1 x.2.2))) := by
+  intro us
+  induction us with
+  | nil => intro cnt s; simp [bunLoop, run1, seqRes, countOk]
+  | cons x us ih =>
+    intro cnt s
+    obtain ⟨n, lab, v⟩ := x
+    simp only [bunLoop, run1_bind, List.map_cons, seqRes]
+    have : run1 (updateNodeProg n lab v) s = apply s (.updateNode n lab v) := rfl
+    rw [this]
+    cases hres : (apply s (.updateNode n lab v)).1 <;> simp only [countOk] <;> rw [ih] <;> try (congr 1; omega)
+
 /-- every batch call either does nothing (its validation phase failed) or leaves exactly the store
     and counters of the sequence of single operations it stands for -/
 theorem batch_seq (s : St) (op : Op) :
